@@ -173,7 +173,7 @@ def scenarios(rng: random.Random, tier: str):
             for wait in waits:
                 for addr in (1, 0):
                     for rep in range(2 if tier == "quick" else 6):
-                        plan = [rng.choice(["ok", "inp", "fail"]) for _ in range(6)]
+                        plan = [rng.choice(["ok", "inp", "fail", "failH", "failA"]) for _ in range(6)]
                         evs = ["start " + ",".join(plan[:2])]
                         for _ in range(9 if tier == "quick" else 14):
                             c = rng.randrange(0, 4)
